@@ -865,7 +865,33 @@ pub fn judge(p: &Program, ex: &Execution, drain: bool) -> Judgement {
         if !ex.with_probes {
             continue;
         }
+        // who could have been holding the order outside the map while this call looked for it?
+        // only a match that traded it (or any match, if it showed nothing and could merely be set
+        // aside) or another amendment of it, running at the same time (known finding KF-C13-1)
+        let shows_nothing = ex
+            .initial
+            .get(ui)
+            .map(|o| o.visible_quantity() == 0)
+            .unwrap_or(false)
+            || ex.calls.iter().any(|d| d.id == Some(id) && d.order.map(|o| o.visible_quantity() == 0).unwrap_or(false));
+        let holder_running = ex.calls.iter().enumerate().any(|(di, d)| {
+            if di == ci || d.start > c.end || d.end < c.start {
+                return false;
+            }
+            match (&d.op, &d.result) {
+                (TOp::Match(_), CallResult::Matched { fills, .. }) => shows_nothing || fills.iter().any(|f| f.0 == id),
+                (op, _) if op.is_amend() => d.id == Some(id),
+                _ => false,
+            }
+        });
         match c.listed_at_last_lookup {
+            Some(false) if !holder_running => v.push(CViolation {
+                oracle: COracle::NotFound,
+                msg: format!(
+                    "thread {} {:?} on {} answered not-found: the order was out of the book at its lookup although no match trading it and no amendment of it was running (and nothing removed it)",
+                    c.tid, c.op, id
+                ),
+            }),
             Some(true) => v.push(CViolation {
                 oracle: COracle::NotFound,
                 msg: format!(
